@@ -311,7 +311,7 @@ def shard(arg):
                 # (the same after a TemplateSyntaxError: an ill-formed file -- outside the property's quantifier -- met
                 # while a template is being prepared leaves the templates prepared inside it before that point in the
                 # loader; the model's preparation drops its cache on an error)
-                CUT = (['err', 'RecursionError'], ['err', 'TemplateSyntaxError'])
+                CUT = (['err', 'RecursionError'],)
                 k = next((x + 1 for x, o in enumerate(ro) if o in CUT), len(ro))
                 if k < len(ro):
                     res.count('sequence:cut-after-%s' % ro[k - 1][1])
